@@ -78,6 +78,24 @@ def job_run(job):
     return lines
 
 
+def tiny_job(case):
+    """Two grids reaching 1e-7 at very small x, the requests a few 1e-9 away from nodes of the first grid only."""
+    cards.silence()
+    A, B = cards.make_grid(30, 15, x_min=1e-7), cards.make_grid(45, 20, x_min=1e-7)
+    xs = [A[2] + 5e-9, A[5] + 8e-9, A[9] * (1 + 8e-6), 3.3e-6, 4.4e-5]
+    name, th_kw, ob_kw = case["name"], case["th"], case["ob"]
+    res = {}
+    for lab, g in (("A", A), ("B", B)):
+        out = cards.run(cards.theory(mc=2.0, mb=5.0, mt=170.0, Q0=1.0, **th_kw), cards.obs({name: [dict(x=x, Q2=Q2) for x in xs]}, xgrid=g, deg=4, **ob_kw))
+        res[lab] = [float(e["result"]) for e in out.apply_pdf_alphas_alphaqed_xir_xif(Toy(), lambda mu: 0.25, lambda mu: 1 / 137, 1.0, 2.0)[name]]
+    lines = []
+    for x, a, b in zip(xs, res["A"], res["B"]):
+        d = abs(a - b) / abs(b) if b != 0 and np.isfinite(a) and np.isfinite(b) else float("inf")
+        lines.append(dict(what="tiny", case=case["id"], x=x, xq=int(round(x * 1e6)), xif=2.0, errs=[["tiny", int(min(round(d * 1e9), 2**30)) if np.isfinite(d) else 2**30]],
+                          finite=bool(np.isfinite(d)), note=f"grid A {a!r}, grid B {b!r}"))
+    return lines
+
+
 def run(ctx):
     q = ctx.quick
     ctx.cov["rule"] = ("cases (observable, process, order) x family member x x x xiF; all members of a case in one process; non-trivial = "
@@ -94,6 +112,8 @@ def run(ctx):
                   dict(id="F2_FFNS_NLO", name="F2_total", th=dict(PTO=1, PTODIS=1, FNS="FFNS", NfFF=3), ob=dict(prDIS="NC")),
                   dict(id="F2_NC_N3LO", name="F2_light", th=dict(PTO=3, PTODIS=3), ob=dict(prDIS="NC"))]
     res = ctx.pmap(job_run, [(c, fam) for c in cases], chunksize=1)
+    res += ctx.pmap(tiny_job, [dict(id="F2_NC_NLO_tiny", name="F2_total", th=dict(PTO=1, PTODIS=1), ob=dict(prDIS="NC")),
+                               dict(id="FL_EM_NLO_tiny", name="FL_total", th=dict(PTO=1, PTODIS=1), ob=dict(prDIS="EM"))], chunksize=1)
     lines = [ln for rows in res for ln in rows]
     for ln in lines:
         ln["oid"] = common.oid_of("C19", {k: ln[k] for k in ("what", "case", "x", "xif")})
